@@ -8,11 +8,11 @@ ID = "C16"
 RULE = ("E-INPUT: start instants (days 27-31/1-2 around every month end and every Sunday of 2019-2020 x 2 times of day, 4 early "
         "instants from 1900-1950, a seeded instant; thorough: every day 2019-2022 x 3 times of day) x a 42-rung span ladder "
         "1 ms..250 y (incl. 7,8,9 ms and 28-31 d) x counts (quick {2,3,5,10,17,50}; thorough 2..50) x both orientations, "
-        "through the real TimeScale().domain(..).ticks(m); plus scale/copy histories (domain, [ticks], copy, re-domain the copy, ticks on both) over 4 starts x span pairs of different magnitude, compared with fresh scales. Oracle: no exception, strictly increasing, in-domain, calendar class "
+        "through the real TimeScale().domain(..).ticks(m); plus scale/copy histories (domain, [ticks], copy, re-domain the copy, ticks on both) over 4 starts x span pairs of different magnitude, compared with fresh scales; on every sixth start a plain request judged right after a two-argument request ticks(m, step) on another scale of the same span. Oracle: no exception, strictly increasing, in-domain, calendar class "
         "from the smallest gap (R-CAL), gap ratio <= 2, count bounds. Non-trivial: >= 2 ticks; separately counted: domains "
         "crossing a 29th-31st, sub-second steps.")
 ASSUMPTIONS = ["TZ=UTC in this check; zone independence is C18", "degenerate (zero-span) domains are outside the property"]
-REQUIRED_COUNTERS = ("copy_histories", "tick_lists", "subsecond", "class_d", "class_mon", "class_y", "class_h", "class_min", "class_s")
+REQUIRED_COUNTERS = ("copy_histories", "plain_requests_after_step_form", "tick_lists", "subsecond", "class_d", "class_mon", "class_y", "class_h", "class_min", "class_s")
 
 
 def bounds(tier, seed):
@@ -88,6 +88,26 @@ def judge(st, sp, m, rev, acc=None):
         if not (sp <= len(tk) <= sp + 1) or any(g != 0.001 for g in gaps):
             return ("C16:count-ms", "span %r ms < m=%d: expected one tick per millisecond, got %s"
                     % (sp, m, [str(x) for x in tk[:5]]))
+    return None
+
+
+def judge_after_step_form(st, sp, m, rev, step, acc=None):
+    """Some scale in the process is asked for ticks with the optional second argument (ticks(count, step), d3's
+    signature); afterwards a plain ticks(m) request on a fresh scale is judged as always."""
+    from labella.scale import TimeScale
+    en = st + timedelta(milliseconds=sp)
+    try:
+        with horizon(10.0):
+            list(TimeScale().domain([st, en]).ticks(m, step))
+    except Exception:
+        pass  # what the two-argument form returns or raises is outside the property
+    if acc is not None:
+        acc.counters["plain_requests_after_step_form"] += 1
+    bad = judge(st, sp, m, rev, acc)
+    if bad:
+        from mc.core import purge_labella
+        purge_labella()  # module state may be damaged: the cases that follow start from a re-imported library
+        return bad[0] + ":after-step-form", "after ticks(%d, %d) on some scale: %s" % (m, step, bad[1])
     return None
 
 
@@ -192,6 +212,14 @@ def run_shard(shard):
                     if bad:
                         acc.violation({"start": st, "span_ms": sp, "m": m, "rev": rev}, bad[0], bad[1],
                                       order=(sp, m, int(rev), cal.ms_of(st)))
+            if (si // shard["mod"]) % 6 == 0:  # every sixth start: a two-argument request first, then the plain one
+                for m, step in ((7, 2), (23, 50)):
+                    bad = judge_after_step_form(st, sp, m, False, step, acc)
+                    acc.evals += 1
+                    acc.trans += 1
+                    if bad:
+                        acc.violation({"start": st, "span_ms": sp, "m": m, "rev": False, "pre_step": step}, bad[0], bad[1],
+                                      order=(sp, m, 2, cal.ms_of(st)))
     acc.sample({"start": st, "span_ms": sp, "m": m, "rev": rev})
     return acc
 
@@ -199,6 +227,8 @@ def run_shard(shard):
 def replay(case):
     if case.get("hist") == "copy":
         return judge_copy_history(case["dA"], case["dB"], case["m"], case["order"])
+    if case.get("pre_step"):
+        return judge_after_step_form(case["start"], case["span_ms"], case["m"], case["rev"], case["pre_step"])
     return judge(case["start"], case["span_ms"], case["m"], case["rev"])
 
 
